@@ -432,3 +432,52 @@ Proof.
   pose proof (max3_ge a (zip3 (fun a0 b => log2_up_ratio a0 t - b) full (0, 0, 0))) as Hm.
   rewrite get3_zip3 in Hm. replace (get3 a (0, 0, 0)) with 0 in * by (destruct a; reflexivity). lia.
 Qed.
+
+(* the code's level count stops early for anisotropic volumes: 10 x 10 x 1000
+   voxels, delays (0, 0, 7) (resolutions 1 : 1 : 100), target 16 *)
+Lemma last_fits_refuted :
+  exists full d t l,
+    last_fits_guard full d t 0 = false /\ scales_core full d t 0 = Ok l /\
+    level_count full d t 0 = 1 /\
+    fits_two_chunks t (level_sizes full d (level_count full d t 0 - 1)) = false.
+Proof.
+  exists (10, 10, 1000), (0, 0, 7), 4.
+  destruct (scales_core (10, 10, 1000) (0, 0, 7) 4 0) as [l| | | | | |c] eqn:E;
+    try (vm_compute in E; discriminate).
+  exists l. repeat split; vm_compute; reflexivity.
+Qed.
+
+Lemma last_fits_on_guard : forall full d t ms,
+  (forall a, 0 < get3 a full) -> 0 <= t -> last_fits_guard full d t ms = true ->
+  forall a, get3 a (level_sizes full d (level_count full d t ms - 1)) <= 2 * 2 ^ t.
+Proof.
+  intros full d t ms Hf Ht Hg a. rewrite <- (last_fits_iff full d t ms Hf Ht) in Hg.
+  unfold fits_two_chunks in Hg. rewrite forall3_spec in Hg. specialize (Hg a). lia.
+Qed.
+
+Example last_fits_example : last_fits_guard (1000, 1000, 10) (0, 0, 7) 4 0 = true.
+Proof. vm_compute. reflexivity. Qed.
+
+(* no assertion can fail when the total anisotropy (in octaves) of the full
+   resolution is at most 3 * log2(target): the "excess" branch is never taken *)
+Lemma aniso0_antitone : forall d l a, 0 <= l -> get3 a (aniso0 d l) <= get3 a (aniso0 d 0).
+Proof. intros d l a Hl. unfold aniso0. rewrite !get3_map3. lia. Qed.
+
+Lemma sum3_le : forall v w, (forall a, get3 a v <= get3 a w) -> sum3 v <= sum3 w.
+Proof.
+  intros [[x y] z] [[x' y'] z'] H.
+  pose proof (H AX); pose proof (H AY); pose proof (H AZ). simpl in *. lia.
+Qed.
+
+Lemma no_assert_on_guard : forall d t l, 0 <= t -> 0 <= l ->
+  sum3 (aniso0 d 0) <= 3 * t -> exists e, chunk_exponents d t l = Ok e.
+Proof.
+  intros d t l Ht Hl Hs. apply chunk_exponents_ok_iff; [assumption|].
+  unfold aniso_reduced.
+  pose proof (sum3_le (aniso0 d l) (aniso0 d 0) (fun a => aniso0_antitone d l a Hl)) as Hle.
+  destruct (Z.ltb_spec 0 (sum3 (aniso0 d l) - 3 * t)); [lia|]. eexists; reflexivity.
+Qed.
+
+Lemma assert_level_refuted :
+  sum3 (aniso0 (0, 10, 11) 0) > 3 * 1 /\ chunk_exponents (0, 10, 11) 1 0 = Crash AssertionError.
+Proof. vm_compute. split; reflexivity. Qed.
